@@ -617,6 +617,7 @@ func init() {
 			}
 			var hist []Call
 			var cell string
+			colon := false
 			n := 3
 			if idx < histCases(maxLen) {
 				hist = decodeHist(idx, maxLen)
@@ -634,6 +635,20 @@ func init() {
 			} else {
 				n = 4 + r.intn(9)
 				edges := randomDag(r, n, 10+r.intn(40))
+				if colon = r.chance(1, 6); colon {
+					// both edges whose "<id>:<dependency id>" texts coincide under the colon IDs
+					for _, need := range [][2]int{{1, 0}, {3, 2}} {
+						have := false
+						for _, e := range edges {
+							if e == need {
+								have = true
+							}
+						}
+						if !have {
+							edges = append(edges, need)
+						}
+					}
+				}
 				retries := make([]int, n)
 				for t := range retries {
 					if r.chance(1, 3) {
@@ -680,7 +695,26 @@ func init() {
 				}
 			}
 			spec.TickerZero = r.chance(1, 15)
-			spec.Colon = r.chance(1, 6)
+			spec.Colon = colon
+			if idx >= histCases(maxLen) && r.chance(1, 25) {
+				// wide and uncontrolled: one ErrorSkipParents task with dozens of dependents next to dozens of short independent
+				// tasks, everything completing at about the same time (completions of skipped vertices compete with real ones)
+				n = 80 + r.intn(80)
+				half := n / 2
+				var edges [][2]int
+				for t := 1; t <= half; t++ {
+					edges = append(edges, [2]int{t, 0})
+				}
+				plan = make([][]int, n)
+				for t := range plan {
+					plan[t] = scripts[0]
+				}
+				plan[0] = scripts[2]
+				hist = canonHist(r, n, edges, make([]int, n))
+				m = BuildModel(n, hist)
+				spec = &Spec{N: n, Hist: hist, Plan: plan, PSeed: r.u64(), Policy: "eager", MaxPar: []int{0, 0, 4, 16}[r.intn(4)]}
+				cell = "wide-skip|uncontrolled"
+			}
 			spec.Percent = r.chance(1, 8)
 			if len(hist) > 1 && r.chance(1, 3) {
 				spec.SortAt = 1 + r.intn(len(hist)-1) // DepthFirstSort called while the graph is still being built
@@ -709,6 +743,9 @@ func init() {
 			} else {
 				for k := 0; k < 3; k++ {
 					spec.Policy = "rand"
+					if strings.HasPrefix(cell, "wide-skip") {
+						spec.Policy, spec.Buffer, spec.WriterFails = "eager", false, false
+					}
 					if v := runOne(spec, res, allProps); v != nil {
 						return v
 					}
